@@ -212,38 +212,50 @@ void h_open_log(void)
  * shims/iora_kvlog_format.h (what unit kv_codec proves writeLogEntry emits) give back (op, key, exp, val) and the trailer - for every op, key of
  * 1..65535 bytes, value of 0..100 MiB, expiry and crc.  Loop-free: each decoded field depends on at most 8 bytes + one witness byte, so the
  * record is constrained exactly at those (symbolic) offsets.  Proof "codec_roundtrip". */
-void h_codec_roundtrip(void)
-{
-  char op = (char)nondet_u8(); iora_sv key; iora_bv value; int64_t exp = nondet_i64(); uint32_t crc = nondet_u32();
-  key.n = nondet_size_t(); value.n = nondet_size_t(); GK = nondet_size_t();
-  __CPROVER_assume(op == OP_S || op == OP_D || op == OP_E || op == OP_X);
-  __CPROVER_assume(key.n >= 1 && key.n <= 65535 && value.n <= 100 * 1024 * 1024);
-  key.p = (const char *)malloc(key.n); value.p = (const uint8_t *)malloc(value.n); __CPROVER_assume(key.p != NULL && value.p != NULL);
-  size_t LOG_N = ENC_N(op, key, value);
-  uint8_t *LOG = (uint8_t *)malloc(LOG_N); __CPROVER_assume(LOG != NULL);
-  size_t b = 0;
-  size_t voff = 4 + PAY_VOFF(op, key);            /* writer side: record offset of vlen32 */
-  size_t eoff = 4 + 5 + key.n;                     /* writer side: record offset of exp64 */
-  size_t toff = 4 + PAY_N(op, key, value);         /* writer side: record offset of the trailer */
 #define ENC_AT(j) __CPROVER_assume(!((j) < LOG_N) || LOG[(j)] == ENC_BYTE((j), op, key, value, exp, crc))
 #define ENC_AT4(j) ENC_AT(j); ENC_AT((j) + 1); ENC_AT((j) + 2); ENC_AT((j) + 3)
-  ENC_AT4(0); ENC_AT(4); ENC_AT4(5);                                   /* len32, op, klen32 */
-  if (GK < key.n) { ENC_AT(9 + GK); }                                 /* one arbitrary key byte */
-  if (ENC_HASEXP(op)) { ENC_AT4(eoff); ENC_AT4(eoff + 4); }           /* exp64 */
-  if (ENC_HASVAL(op)) { ENC_AT4(voff); if (GK < value.n) { ENC_AT(voff + 4 + GK); } }   /* vlen32, one arbitrary value byte */
+#define RT_SETUP \
+  char op = (char)nondet_u8(); iora_sv key; iora_bv value; int64_t exp = nondet_i64(); uint32_t crc = nondet_u32(); \
+  key.n = nondet_size_t(); value.n = nondet_size_t(); GK = nondet_size_t(); \
+  __CPROVER_assume(op == OP_S || op == OP_D || op == OP_E || op == OP_X); \
+  __CPROVER_assume(key.n >= 1 && key.n <= 65535 && value.n <= 100 * 1024 * 1024); \
+  key.p = (const char *)malloc(key.n); value.p = (const uint8_t *)malloc(value.n); __CPROVER_assume(key.p != NULL && value.p != NULL); \
+  size_t LOG_N = ENC_N(op, key, value); \
+  uint8_t *LOG = (uint8_t *)malloc(LOG_N); __CPROVER_assume(LOG != NULL); \
+  size_t b = 0; \
+  size_t voff = 4 + PAY_VOFF(op, key);            /* writer side: record offset of vlen32 */ \
+  size_t eoff = 4 + 5 + key.n;                     /* writer side: record offset of exp64 */ \
+  size_t toff = 4 + PAY_N(op, key, value);         /* writer side: record offset of the trailer */ \
+  ENC_AT4(0); ENC_AT(4); ENC_AT4(5);                                   /* len32, op, klen32 */ \
+  if (GK < key.n) { ENC_AT(9 + GK); }                                 /* one arbitrary key byte */ \
+  if (ENC_HASEXP(op)) { ENC_AT4(eoff); ENC_AT4(eoff + 4); }           /* exp64 */ \
+  if (ENC_HASVAL(op)) { ENC_AT4(voff); if (GK < value.n) { ENC_AT(voff + 4 + GK); } }   /* vlen32, one arbitrary value byte */ \
   ENC_AT4(toff);                                                       /* trailer */
+void h_codec_roundtrip(void)
+{
+  RT_SETUP
   IORA_CANARY("h_codec_roundtrip: a record exists");
   if (op == OP_E && value.n > 0 && GK < value.n) { IORA_CANARY("h_codec_roundtrip: E record with a value byte"); }
   __CPROVER_assert(COMPLETE && AVAIL == 4 + TL, "RT1 the record is complete and len32 covers exactly payload + trailer");
   __CPROVER_assert(OPB == op && OP_OK && KL == key.n && KEY_OK, "RT2 op and key length decode to the originals and are accepted");
-  __CPROVER_assert(IMPL(GK < key.n, LOG[P0 + 5 + GK] == (uint8_t)key.p[GK]), "RT3 key bytes decode to the original (arbitrary byte GK)");
   __CPROVER_assert(STORED == crc, "RT4 the stored trailer is the crc the writer appended");
-  __CPROVER_assert(IMPL(op == OP_S, S_OK && S_VL == value.n && FOFF + 4 + S_VL + 4 == TL), "RT5 S: value length decodes to the original, the record has no slack");
-  __CPROVER_assert(IMPL(op == OP_S && GK < value.n, LOG[P0 + FOFF + 4 + GK] == value.p[GK]), "RT6 S: value bytes decode to the original");
-  __CPROVER_assert(IMPL(op == OP_E, E_OK && E_EXP == exp && E_VL == value.n && FOFF + 12 + E_VL + 4 == TL), "RT7 E: expiry and value length decode to the originals, no slack");
-  __CPROVER_assert(IMPL(op == OP_E && GK < value.n, LOG[P0 + FOFF + 12 + GK] == value.p[GK]), "RT8 E: value bytes decode to the original");
-  __CPROVER_assert(IMPL(op == OP_X, X_OK && E_EXP == exp && FOFF + 12 == TL), "RT9 X: expiry decodes to the original, no slack");
   __CPROVER_assert(IMPL(op == OP_D, FOFF + 4 == TL), "RT10 D: key then trailer");
+}
+void h_codec_roundtrip_fields(void)
+{
+  RT_SETUP
+  IORA_CANARY("h_codec_roundtrip_fields: a record exists");
+  __CPROVER_assert(IMPL(op == OP_S, S_OK && S_VL == value.n && FOFF + 4 + S_VL + 4 == TL), "RT5 S: value length decodes to the original, the record has no slack");
+  __CPROVER_assert(IMPL(op == OP_E, E_OK && E_EXP == exp && E_VL == value.n && FOFF + 12 + E_VL + 4 == TL), "RT7 E: expiry and value length decode to the originals, no slack");
+  __CPROVER_assert(IMPL(op == OP_X, X_OK && E_EXP == exp && FOFF + 12 == TL), "RT9 X: expiry decodes to the original, no slack");
+}
+void h_codec_roundtrip_bytes(void)
+{
+  RT_SETUP
+  IORA_CANARY("h_codec_roundtrip_bytes: a record exists");
+  __CPROVER_assert(IMPL(GK < key.n, LOG[P0 + 5 + GK] == (uint8_t)key.p[GK]), "RT3 key bytes decode to the original (arbitrary byte GK)");
+  __CPROVER_assert(IMPL(op == OP_S && GK < value.n, LOG[P0 + FOFF + 4 + GK] == value.p[GK]), "RT6 S: value bytes decode to the original");
+  __CPROVER_assert(IMPL(op == OP_E && GK < value.n, LOG[P0 + FOFF + 12 + GK] == value.p[GK]), "RT8 E: value bytes decode to the original");
 }
 
 #ifdef IORA_SEARCH
